@@ -36,6 +36,7 @@ pub mod log {
     pub uninterp spec fn installed(l: LevelFilter) -> bool;
     #[verifier::external_body] pub struct SetLoggerError { _p: () }
     #[verifier::external_body] pub fn set_max_level(level: LevelFilter) ensures installed(level) { unimplemented!() }
+    #[verifier::external_body] pub fn max_level() -> LevelFilter { unimplemented!() }
     // real signature: set_boxed_logger(Box<dyn Log>); the header is generic over the concrete logger so that the unit can
     // state, as `ready_for_facade`, what must hold when a logger is handed to the facade
     pub trait FacadeLogger { spec fn ready_for_facade(&self) -> bool; }
